@@ -249,7 +249,7 @@ int vp_case(Choice& c, Report& rep) {
       memcpy(in.p, x.data(), sizeof(float) * (size_t)fs * ch);
       ret = kind == SINGLE ? opus_encode_float(enc.p, in.p, fs, out.p, maxb) : kind == MULTI ? opus_multistream_encode_float(msenc.p, in.p, fs, out.p, maxb) : opus_projection_encode_float(pjenc.p, in.p, fs, out.p, maxb);
     }
-    rep.note("step%d dur=%d/400s maxb=%d fmt=%d expert=%d -> %d", step, cu::DUR400[d], maxb, fmt, expert, ret);
+    rep.note("step%d dur=%d/400s maxb=%d fmt=%d expert=%d signal=%s amp=%g -> %d", step, cu::DUR400[d], maxb, fmt, expert, sig::FAMILY_NAME[family], amp, ret);
     // --- oracle: return value
     VP_REQUIRE(ret != OPUS_INTERNAL_ERROR && ret != OPUS_UNIMPLEMENTED && ret != OPUS_INVALID_STATE && ret != OPUS_ALLOC_FAIL && ret != OPUS_INVALID_PACKET, "c02:internal-error", "encode returned %d (kind %d maxb %d fs %d)", ret, kind, maxb, fs);
     if (exp_dur < 0) {
